@@ -697,10 +697,10 @@ Definition wf_op (o : op) : Prop :=
   match o with
   | OHeaders _ now hs => T now /\ Forall U hs /\ zlen hs < memCap P
   | ORollback _ => False
-  | OHeadersF _ _ _ _ => False     (* store write faults: S2/Faults.v (wf_op_f, step_spec_f) *)
+  | OHeadersF _ _ _ _ | OHeadersR _ _ _ _ => False     (* store faults: S2/Faults.v (wf_op_f, step_spec_f) *)
   | _ => True
   end.
-Definition op_size (o : op) : Z := match o with OHeaders _ _ hs | OHeadersF _ _ hs _ => zlen hs | _ => 0 end.
+Definition op_size (o : op) : Z := match o with OHeaders _ _ hs | OHeadersF _ _ hs _ | OHeadersR _ _ hs _ => zlen hs | _ => 0 end.
 Definition ops_size (ops : list op) : Z := foldr (fun o n => op_size o + n) 0 ops.
 
 Definition StepRel (s : state) (o : op) (s' : state) : Prop :=
@@ -712,7 +712,7 @@ Definition StepRel (s : state) (o : op) (s' : state) : Prop :=
 Lemma step_spec s o : Inv s -> wf_op o -> zlen (chain s) + op_size o <= LIMIT ->
   Inv (step P s o) /\ StepRel s o (step P s o).
 Proof.
-  intros HI Hwf Hlim. destruct o as [p now hs|p now x|p st la full|p|prev fs stop|h| |p now hs k]; cbn [step StepRel wf_op op_size] in *.
+  intros HI Hwf Hlim. destruct o as [p now hs|p now x|p st la full|p|prev fs stop|h| |p now hs k|p now hs k]; cbn [step StepRel wf_op op_size] in *.
   - destruct Hwf as (HT & HUs & Hlen). by apply handle_headers_spec.
   - split; [eapply Inv_core; [done|apply core_eq_handle_inv]|apply (core_eq_handle_inv now p x s)].
   - split; [eapply Inv_core; [done|]|].
@@ -722,6 +722,7 @@ Proof.
   - by apply write_cf_Inv.
   - done.
   - by apply restart_Inv.
+  - done.
   - done.
 Qed.
 
